@@ -35,7 +35,8 @@ LABELS = {"modified": "MOD", "added": "ADD:", "removed": "DEL:", "renamed": "REN
 DEFAULT_LABELS = {"modified": "", "added": "added:", "removed": "removed:", "renamed": "renamed:",
                   "copied": "copied:"}
 EVENTS = ["modified", "added", "deleted", "renamed", "renamed_changed", "copied", "mode",
-          "mode_changed", "binary", "empty", "renamed_binary", "conflict_at_top", "combined_binary"]
+          "mode_changed", "binary", "empty", "renamed_binary", "conflict_at_top", "combined_binary",
+          "mode_binary", "combined_mode", "two_names_mode"]
 
 
 def enc(s):
@@ -125,6 +126,24 @@ def make_section(event, shape, n, prefixes=("a/", "b/"), src="git", frag=""):
         # a binary file in a merge commit
         lines = ["diff --cc %s" % withq("", old), "index 1111111,2222222..3333333", "Binary files differ"]
         spec.update(addenda=["binary"])
+    elif event == "mode_binary":
+        # a binary file whose content and mode changed
+        lines = [d, "old mode 100644", "new mode 100755", "index 1111111..2222222",
+                 "Binary files %s and %s differ" % (withq(pa, old), withq(pb, new))]
+        spec.update(addenda=["mode", "binary"])
+    elif event == "combined_mode":
+        # merge commit: the mode of the result differs from the parents' (combined diff format: `mode <m1>,<m2>..<m>`)
+        hh3 = "@@@ -1,2 -1,2 +1,3 @@@" + ((" " + frag) if frag else "")
+        lines = ["diff --cc %s" % withq("", old), "index 1111111,2222222..3333333", "mode 100644,100644..100755",
+                 "--- " + marker(pa, old), "+++ " + marker(pb, new), hh3, "  a", "++c"]
+        spec.update(addenda=["mode"], hunks=[frag])
+    elif event == "two_names_mode":
+        # `git diff --no-index x y` (also `delta x y`): same content, different mode - the two names are on the
+        # `diff` line only
+        new = nm("", "%dR" % n)
+        d = "diff --git %s %s" % (withq(pa, old), withq(pb, new))
+        lines = [d, "old mode 100644", "new mode 100755"]
+        spec.update(new=new, addenda=["mode"])
     elif event == "renamed_binary":
         new = nm("", "%dR" % n)
         d = "diff --git %s %s" % (withq(pa, old), withq(pb, new))
@@ -395,13 +414,48 @@ def run_task(task):
     return d
 
 
+def run_raw_filestyle(task):
+    """file-style raw (git's own header lines are kept, or delta's header is written unpainted): the section still
+    says that the file is binary / that its mode changed. Rows cannot be classified by style there, so the oracle
+    is on the visible text of the whole output of one section."""
+    _ = task
+    drv = explore.get_driver()
+    viols = []
+    n = 0
+    for label, ov in (("raw,nodeco", {"file-style": "raw", "file-decoration-style": "none"}),
+                      ("raw,ul", {"file-style": "raw", "file-decoration-style": "117 ul"}),
+                      ("raw,box", {"file-style": "raw", "file-decoration-style": "117 box"})):
+        args = build_args(base_opts(dict(LABEL_OPTS, **ov)))
+        cid = drv.mkconfig(args)
+        for ev, words in (("binary", ["inary"]), ("mode", ["mode"]), ("mode_binary", ["inary", "mode"]),
+                          ("renamed_binary", ["inary"]), ("combined_binary", ["inary"]), ("mode_changed", ["mode"])):
+            for shape in ("plain", "space"):
+                lines, spec = make_section(ev, shape, 0)
+                data = b"".join(l + b"\n" for l in lines)
+                r = drv.render1(cid, data)
+                n += 1
+                if r.panic:
+                    continue
+                text = term.strip(r.out.decode("utf-8", "replace"))
+                missing = [w for w in words if w not in text]
+                if missing and not any(v.klass == "raw-file-style:" + ev for v in viols):
+                    v = explore.Violation("raw-file-style:" + ev, "[%s] section %s: the output never says %s: %r"
+                                          % (label, ev, " / ".join("'%s'" % w for w in missing), text[:200]), lines)
+                    v.args = args
+                    v.config_label = label
+                    viols.append(v)
+        drv.drop(cid)
+    return {"n": n, "violations": viols}
+
+
 def menus(tier):
     full = []
     for ev in EVENTS:
         for shape in SHAPES:
             full.append((ev, shape, ("a/", "b/"), "fn frag(x)" if shape == "plain" else ""))
     mnemonic = [(ev, "plain", p, "") for ev in ("modified", "renamed_changed", "mode")
-                for p in (("i/", "w/"), ("c/", "w/"), ("o/", "w/"), ("c/", "i/"))]
+                for p in (("i/", "w/"), ("c/", "w/"), ("o/", "w/"), ("c/", "i/"), ("1/", "2/"))] + \
+        [("empty", "plain", ("1/", "2/"), "")]
     core = [(ev, "plain", ("a/", "b/"), "fn frag(x)") for ev in EVENTS]
     return full, mnemonic, core
 
@@ -437,5 +491,8 @@ def main(tier):
             if k == 1:
                 tasks.append((label + "/same-file", ov, core, 2, "git+same"))
     cap = 45 if tier == "quick" else 900
+    rres = explore.pmap(run_raw_filestyle, [None])
     return runner.run_e1(PROP, tier, tasks, run_task, ASSUMPTIONS, cap,
-                         {"config_deviation_bound": d, "configurations": len(configs)})
+                         {"config_deviation_bound": d, "configurations": len(configs),
+                          "raw_file_style_renders": sum(r["n"] for r in rres)},
+                         extra_violations=[v for r in rres for v in r["violations"]])
